@@ -100,6 +100,16 @@ class ExprTr:
                 if ta != Ty.Z or tb != Ty.Z:
                     self.fail(node)
                 return f'(Z.max {a} {b})', Ty.Z
+            # ' '.join(X.split()): white space runs collapsed to one blank, leading/trailing dropped
+            if isinstance(node.func, ast.Attribute) and node.func.attr == 'join' and not node.keywords \
+                    and isinstance(node.func.value, ast.Constant) and node.func.value.value == ' ' \
+                    and len(node.args) == 1 and isinstance(node.args[0], ast.Call) \
+                    and isinstance(node.args[0].func, ast.Attribute) and node.args[0].func.attr == 'split' \
+                    and not node.args[0].args and not node.args[0].keywords:
+                obj, to = self.tr(node.args[0].func.value)
+                if to == Ty.TEXT:
+                    return f'(join_split space_set {obj})', Ty.TEXT
+                self.fail(node)
             if isinstance(node.func, ast.Attribute) and not node.keywords:
                 obj, to = self.tr(node.func.value)
                 meth = node.func.attr
